@@ -346,6 +346,13 @@ def init (cfg : Cfg) : PState := { cfg := cfg }
 def newestFlushed (s : PState) (k : Bytes) : Option Bytes :=
   ((if s.running then s.hist.tail else s.hist).map (·.2)).findSome? (·.get k)
 
+/-- the assumption under which the callback's bounds are meaningful: written keys are non-empty (the empty key is the
+    "unset" sentinel of pipelinedStart / pipelinedEnd / primaryKey) -/
+def Op.keyOk : Op → Bool
+  | .set k _ => !k.isEmpty
+  | .del k => !k.isEmpty
+  | _ => true
+
 /-- what the caller sees: the results of the ops, in order -/
 def runOuts (s : PState) : List Op → List Out
   | [] => []
